@@ -15,7 +15,9 @@ Alpha == <<
   Recv_(1, 255, 3, 0, P57), Recv_(1, 0, 1, 0, Pa), Recv_(1, 255, 0, 17, P20), Recv_(1, 0, 0, 6, Pa),
   RecvF(1, 255, 3, 22, P1, "rel", 1), RecvF(1, 255, 3, 22, P1, "rel", 2), RecvF(1, 255, 3, 22, P1, "rel", 3),
   RecvF(1, 255, 3, 32, PEmpty, "rel", 1), RecvF(1, 255, 3, 32, PEmpty, "rel", 2), RecvF(1, 255, 3, 32, PEmpty, "rel", 3),
-  RecvF(2, 255, 3, 22, P1, "rel", 1), RecvF(2, 255, 3, 32, PEmpty, "rel", 1)
+  RecvF(2, 255, 3, 22, P1, "rel", 1), RecvF(2, 255, 3, 32, PEmpty, "rel", 1),
+  Recv_(0, 255, 3, 2, P22),                                            \* the gateway reports (another) version while commands are parked
+  Cycle_
 >>
 Inits == << St(Reg, "2.0", "2.0", TRUE), St(Reg, "2.1", "2.1", TRUE), St(Reg, "2.2", "2.2", TRUE),
             St(Reg, "1.5", "1.5", TRUE) >>
